@@ -1,11 +1,12 @@
 import ZvbiModel.Idl.RepeatSender
 import ZvbiModel.Pfc.Sender
+import ZvbiModel.Pfc.MultiTail
 import ZvbiModel.Pfc.Witness
 /-!
 # C15, second part - the executable senders end to end, repeats, foreign traffic, tail loss
 
 Property theorems only (continuation of `Props/C15.lean`).  Helper lemmas: `Idl/RepeatSender.lean`,
-`Pfc/Multi.lean`, `Pfc/Sender.lean`.
+`Pfc/Multi.lean`, `Pfc/MultiTail.lean`, `Pfc/Sender.lean`.
 -/
 namespace Zvbi.Props.C15
 open Zvbi.Hamm Zvbi.Gen
@@ -55,9 +56,11 @@ theorem idl_new_state (channel address fill : Nat) (s : St) (h : new channel add
     consecutive continuity indices (modulo 256, from any start value `c`), any options per message,
     to channel `channel`, address nibbles `spa`.  To each message one of these happens (`Ev`): the
     first transmission arrives intact (and any further repeats of it); it arrives damaged
-    (detectably, in its CRC region) announcing a repeat, and repeat 1 arrives intact; it arrives
-    damaged announcing a repeat that never comes; it arrives damaged announcing none; nothing of it
-    arrives; unrelated packets may come in between.  A new demultiplexer then calls back exactly
+    (detectably, in its CRC region) announcing a repeat - possibly several of its transmissions do -
+    and the repeat announced last arrives intact; it arrives damaged announcing a repeat that never
+    comes intact, or instead of which a later repeat arrives (discarded, counted as a loss); it
+    arrives damaged announcing none; nothing of it arrives; unrelated packets may come in between.
+    A new demultiplexer then calls back exactly
     `want false none false`: every message that arrived intact or was repaired by its repeat - once,
     in order, exact bytes, DEPENDENT as sent - and DATA_LOST exactly on the first delivery after
     something was lost (a message that is damaged and then repaired is not a loss; a gap of an
@@ -99,14 +102,16 @@ theorem idl_roundtrip (channel : Nat) (spa : List Nat) (hch : channel < 16) (hsp
 
 /-- **A damaged packet followed by its repeat is delivered once and not flagged lost.**  A
     receiver in step with the sender (nothing pending, no repeat awaited, expecting the next index or
-    nothing) gets message `m` damaged but announcing a repeat, then repeat 1 intact (then any further
-    repeats), then the next message `m'`: exactly two callbacks, `m` and `m'`, neither with DATA_LOST. -/
+    nothing) gets message `m` damaged but announcing a repeat (possibly also some of its repeats
+    damaged, each announcing another one: `ds`, `d`), then the repeat that the last damaged packet
+    announced arrives intact (then any further repeats), then the next message `m'`: exactly two
+    callbacks, `m` and `m'`, neither with DATA_LOST. -/
 theorem idl_repeat_repairs (channel : Nat) (spa : List Nat) (hch : channel < 16) (hspa : spa.length ≤ 6)
-    (hspalt : ∀ n ∈ spa, n < 16) (c : Nat) (m m' : Msg) (d : Spec.Pkt) (dups : List Nat)
-    (hok : EvsOk channel spa c [.repaired m d dups, .intact m' []])
+    (hspalt : ∀ n ∈ spa, n < 16) (c : Nat) (m m' : Msg) (ds : List Spec.Pkt) (d : Spec.Pkt) (k : Nat) (dups : List Nat)
+    (hok : EvsOk channel spa c [.repaired m ds d k dups, .intact m' []])
     (s : St) (hsc : s.channel = channel) (hsa : s.address = Spec.spaVal spa) (hfl : s.flags = 0) (hri : s.ri = none)
     (hci : s.ci = none ∨ ∃ e, s.ci = some e ∧ e % 256 = c % 256) :
-    (run s ((txsOf channel spa c [.repaired m d dups, .intact m' []]).map Spec.Tx.bytes)).map
+    (run s ((txsOf channel spa c [.repaired m ds d k dups, .intact m' []]).map Spec.Tx.bytes)).map
       (fun cb => (cb.flags, cb.bytes)) = [(m.dep, m.data), (m'.dep, m'.data)] := by
   rcases hci with h | ⟨e, h, he⟩
   · rw [run_events channel spa hch hspa hspalt _ c hok s hsc hsa false none false (by rw [hfl]; rfl)
@@ -116,15 +121,15 @@ theorem idl_repeat_repairs (channel : Nat) (spa : List Nat) (hch : channel < 16)
       (by rw [h]; exact ⟨by omega, by simpa using he⟩) (by rw [hri]; trivial)]
     simp [want, gapBad]
 
-/-- **Without the repeat the next delivery carries DATA_LOST.**  The same receiver gets a packet
-    damaged but announcing a repeat, the repeat never arrives, then the next message `m'` arrives:
+/-- **Without the repeat the next delivery carries DATA_LOST.**  The same receiver gets packets
+    damaged but announcing a repeat, no repeat arrives intact, then the next message `m'` arrives:
     one callback, `m'` with DATA_LOST. -/
 theorem idl_missing_repeat_flagged (channel : Nat) (spa : List Nat) (hch : channel < 16) (hspa : spa.length ≤ 6)
-    (hspalt : ∀ n ∈ spa, n < 16) (c : Nat) (m' : Msg) (d : Spec.Pkt)
-    (hok : EvsOk channel spa c [.unrepaired d, .intact m' []])
+    (hspalt : ∀ n ∈ spa, n < 16) (c : Nat) (m' : Msg) (ds : List Spec.Pkt) (d : Spec.Pkt)
+    (hok : EvsOk channel spa c [.unrepaired ds d, .intact m' []])
     (s : St) (hsc : s.channel = channel) (hsa : s.address = Spec.spaVal spa) (hfl : s.flags = 0) (hri : s.ri = none)
     (hci : s.ci = none ∨ ∃ e, s.ci = some e ∧ e % 256 = c % 256) :
-    (run s ((txsOf channel spa c [.unrepaired d, .intact m' []]).map Spec.Tx.bytes)).map
+    (run s ((txsOf channel spa c [.unrepaired ds d, .intact m' []]).map Spec.Tx.bytes)).map
       (fun cb => (cb.flags, cb.bytes)) = [(1 ||| m'.dep, m'.data)] := by
   rcases hci with h | ⟨e, h, he⟩
   · rw [run_events channel spa hch hspa hspalt _ c hok s hsc hsa false none false (by rw [hfl]; rfl)
@@ -137,16 +142,27 @@ theorem idl_missing_repeat_flagged (channel : Nat) (spa : List Nat) (hch : chann
 /-- the first transmission of message `exMsg 8` with index 5, damaged in its last byte -/
 def exDamaged : Spec.Pkt := { pk 3 [1, 2] 5 (exMsg 8) 0 with crcHi := (pk 3 [1, 2] 5 (exMsg 8) 0).crcHi ^^^ 1 }
 
+/-- repeat 1 of the same message, damaged in its last byte (its RI byte 0x81 announces repeat 2) -/
+def exDamaged1 (ci : Nat) : Spec.Pkt :=
+  { pk 3 [1, 2] ci (exMsg 8) 1 with crcHi := (pk 3 [1, 2] ci (exMsg 8) 1).crcHi ^^^ 1 }
+
 /-- non-vacuity: message 5 damaged and repaired by its repeat (plus a second repeat), message 6
-    intact, message 7 damaged without its repeat, message 8 dropped, message 9 intact: three
-    callbacks, only the last with DATA_LOST (here DEPENDENT = 8 is set in all) -/
+    damaged, its repeat 1 damaged, repaired by repeat 2, message 7 damaged without its repeat, message 8
+    dropped, message 9 intact: three callbacks, only the last with DATA_LOST (here DEPENDENT = 8 is
+    set in all) -/
+def exEvs : List Ev :=
+  [.repaired (exMsg 8) [] exDamaged 1 [2], .repaired (exMsg 8) [exDamaged] (exDamaged1 6) 2 [],
+   .unrepaired [] exDamaged, .dropped, .foreign (List.replicate 42 0), .intact (exMsg 8) [1]]
 example : (run { channel := 3, address := 0x21, ci := none, ri := none, flags := 0 }
-    ((txsOf 3 [1, 2] 5 [.repaired (exMsg 8) exDamaged [2], .intact (exMsg 8) [], .unrepaired exDamaged, .dropped,
-      .foreign (List.replicate 42 0), .intact (exMsg 8) [1]]).map Spec.Tx.bytes)).map (·.flags) = [8, 8, 9] := by
+    ((txsOf 3 [1, 2] 5 exEvs).map Spec.Tx.bytes)).map (·.flags) = [8, 8, 9] := by
   decide +kernel
-example : want false none false [.repaired (exMsg 8) exDamaged [2], .intact (exMsg 8) [], .unrepaired exDamaged, .dropped,
-    .foreign (List.replicate 42 0), .intact (exMsg 8) [1]] =
-    [(8, (exMsg 8).data), (8, (exMsg 8).data), (9, (exMsg 8).data)] := by decide
+example : want false none false exEvs = [(8, (exMsg 8).data), (8, (exMsg 8).data), (9, (exMsg 8).data)] := by decide
+/-- the announced repeat 1 is lost, repeat 9 arrives (its number differs from 1 only in bit 3): no callback,
+    and the next message carries DATA_LOST -/
+example : (run { channel := 3, address := 0x21, ci := none, ri := none, flags := 0 }
+    ((txsOf 3 [1, 2] 5 [.lateRepeat (exMsg 8) [] exDamaged 9, .intact (exMsg 0) []]).map Spec.Tx.bytes)).map (·.flags) = [1] := by
+  decide +kernel
+example : (exDamaged1 6).ri &&& 0xF = 2 - 1 ∧ ((exDamaged1 6).residual ≠ 0) := by decide +kernel
 
 end Idl
 
@@ -266,6 +282,49 @@ theorem pfc_tail_loss_reads_spliced_stream (hfinding : pfcPageEndChecked = false
   feed_reception pgno stream hpg1 hpg2 hst ci hci pages
     (fun pg hpg => ⟨(hn pg hpg).1, (hn pg hpg).2, Or.inr hfinding⟩) hint post hpost D ph hrun hadm l hthin
 
+/-- **Finding F42, hypothesis-free form: the packet count of a page header beyond the rows that
+    arrive has no effect at all.**  On the current source (`Gen.pfcPageEndChecked = false`), in any
+    state of a demultiplexer for page `pgno` / stream `stream`: a header of ours announces `n` packets;
+    then any packets arrive (`mid`: any 42 bytes each, damaged or not, of any magazine) except rows
+    `b+1 .. n` of our magazine (`1 <= b <= n`) - so at most the rows `X/1 .. X/b` of our page - and then
+    the next header of ours (any continuity index).  Everything the demultiplexer does - callbacks,
+    final state, for every continuation `rest` - is exactly what it does when the first header
+    announces only `b` packets: that `n - b` packets are missing is invisible to it.  (Proof: the
+    decoder never reads `n_packets`, `Pfc/MultiTail.lean` `decode_setN`; `vbi_pfc_demux_feed` only
+    compares row numbers with it; the next header overwrites it.) -/
+theorem pfc_tail_loss_unnoticed (hfinding : pfcPageEndChecked = false) (pgno stream : Nat)
+    (hpg1 : 0x100 ≤ pgno) (hpg2 : pgno < 0x900) (hst : stream < 16)
+    (s : St) (hsp : s.pgno = pgno) (hss : s.stream = stream)
+    (ci n b : Nat) (hci : ci < 16) (hn : n < 32) (hb : 1 ≤ b) (hbn : b ≤ n) (tail : List Nat)
+    (mid : List (List Nat)) (hmid : ∀ buf ∈ mid, buf.length = 42 ∧ NotBetween pgno b n buf)
+    (ci' n' : Nat) (hci' : ci' < 16) (hn' : n' < 32) (tail' : List Nat) (rest : List (List Nat)) :
+    feedAll s (Spec.headerPkt pgno stream ci n tail :: (mid ++ Spec.headerPkt pgno stream ci' n' tail' :: rest)) =
+    feedAll s (Spec.headerPkt pgno stream ci b tail :: (mid ++ Spec.headerPkt pgno stream ci' n' tail' :: rest)) :=
+  tail_loss_unnoticed hfinding pgno stream hpg1 hpg2 hst s hsp hss ci n b hci hn hb hbn tail mid hmid ci' n' hci' hn'
+    tail' rest
+
+/-- non-vacuity: row X/1 of page 1DF is not one of the rows 2..2 -/
+example : NotBetween 0x1df 1 2 (Spec.rowPkt 0x1df 1 0 (List.replicate 39 0x15)) := by
+  intro m y h _
+  have : Spec.addrOf (Spec.rowPkt 0x1df 1 0 (List.replicate 39 0x15)) = some (0x100, 1) := by decide
+  rw [this] at h; cases h; omega
+
+/-- **With the repair the loss is noticed.**  On a source whose page header branch checks the end
+    of the previous page (`Gen.pfcPageEndChecked = true`, `fixes/pfc-page-continuity.diff`): a header
+    of ours with the expected continuity index that arrives while announced packets of the open page
+    are outstanding puts the demultiplexer into the state of a new one before opening the new page -
+    the block in progress is discarded, as the property demands.  (Vacuous on the current source.) -/
+theorem pfc_tail_loss_discards_when_repaired (hfix : pfcPageEndChecked = true) (s : St) (pgno stream ci n : Nat)
+    (tail : List Nat) (hpg1 : 0x100 ≤ pgno) (hpg2 : pgno < 0x900) (hst : stream < 16) (hci : ci < 16) (hn : n < 32)
+    (hs : s.pgno = pgno) (hss : s.stream = stream) (hopen : s.nPackets > 0) (hmissing : s.packet ≠ s.nPackets + 1) :
+    feed s (Spec.headerPkt pgno stream ci n tail) =
+      .ok ⟨{ reset s with ci := (ci + 1) &&& 15, packet := 1, nPackets := n }, true, []⟩ := by
+  rw [feed_header s pgno stream ci n tail hpg1 hpg2 hst hci hn hs hss]
+  have : pageEnd s = reset s := by
+    unfold pageEnd; rw [hfix]; simp [hopen, hmissing]
+  rw [this]
+  split <;> rfl
+
 /-- a transmission of `Spec.encode`: block (app 5, bytes 0..72) fills rows 1 and 2 of the first page
     exactly, block (app 6, 34 bytes) is row 1 of the second page, block (app 7) follows in row 2 -/
 def spliceItems : List Spec.Item :=
@@ -289,6 +348,14 @@ theorem pfc_tail_loss_spliced_counterexample :
       [(5, List.range 34 ++ (Spec.blockBytes ⟨6, (List.range 34).map (· + 100)⟩)), (7, [1, 2, 3])] ∧
     (blocksOf (feedAll (new 0x1df 1) (pagesGPkts 0x1df 1 5 splicePages))).map (fun b => (b.1, b.2.2)) =
       [(5, List.range 34 ++ (Spec.blockBytes ⟨6, (List.range 34).map (· + 100)⟩)), (7, [1, 2, 3])] := by
+  decide +kernel
+
+/-- ... and the same packets with the first header announcing 1 packet instead of 2 give the same result
+    (instance of `pfc_tail_loss_unnoticed`) -/
+example : (feedAll (new 0x1df 1) (pagesGPkts 0x1df 1 5 splicePages)).toOption =
+    (feedAll (new 0x1df 1) (pagesGPkts 0x1df 1 5
+      [⟨[], List.replicate 34 0x20, 1, spliceRows.take 1⟩, ⟨[], List.replicate 34 0x20, 2, spliceRows.drop 2⟩])).toOption ∧
+    (feedAll (new 0x1df 1) (pagesGPkts 0x1df 1 5 splicePages)).toOption.isSome = true := by
   decide +kernel
 
 /-- the same reception with all rows arriving delivers the three blocks as sent -/
